@@ -670,38 +670,8 @@ func ExpandCalls(p *Prog, t *Term) (*Term, bool) {
 	changed := false
 	var rec func(t *Term) *Term
 	expandCall := func(call *Term) []*Term {
-		c, ok := call.V.(ssa.CallInstruction)
-		if !ok {
-			return nil
-		}
-		h := c.Common().StaticCallee()
-		if h == nil || h.Blocks == nil || !InRepo(h) || len(h.Params) != len(call.Args) {
-			return nil
-		}
-		hb := NewBuilder(p, h)
-		hb.Bind = map[*ssa.Parameter]*Term{}
-		for i, prm := range h.Params {
-			hb.Bind[prm] = call.Args[i]
-		}
-		var ret *Exit
-		for _, e := range Exits(h) {
-			if e.Panic {
-				continue
-			}
-			if ret != nil {
-				return nil
-			}
-			e := e
-			ret = &e
-		}
-		if ret == nil {
-			return nil
-		}
-		var out []*Term
-		for _, r := range ret.Results {
-			out = append(out, hb.Of(r, ret.Instr))
-		}
-		return out
+		// single-exit helpers, and (values…, error) helpers with one successful exit
+		return expandCallTerm(p, call)
 	}
 	rec = func(t *Term) *Term {
 		if t == nil {
